@@ -119,7 +119,7 @@ def check(desc, name, bools, rets):
     NOTES.info = dict(outline=repr(desc)[:160], trace=[f'{a}{b}' for a, b in trace][:24])
 
 
-GROUP = {'quick': 8, 'thorough': 32}
+GROUP = {'quick': 8, 'thorough': 8}
 TIERS = ['quick', 'thorough']
 
 
